@@ -429,10 +429,11 @@ def c04_family(tier):
     # two consumers pausing one after the other, the second one a non-prefetching (low latency) consumer that kept re-requesting
     # during the first pause; connection timeout 1000 ms, both pauses shorter than it
     for ll in [True, False]:
-        for ka in [3, 4, 12]:      # (3: the very frame the waiting consumer had been asking for during the other one's pause)
-            fs = [src(N, required='snk,other', period=20), sink('snk', ['src'], stall(ka, 900)), sink('other', ['src;main>x'], stall(2, 800))]
-            fs[1].setdefault('config', {})['sources_low_latency'] = ll
-            out.append(timely(scn(f'two-pauses/lowlat{int(ll)}/k{ka}', fs, conn_timeout=1000), quiet=3000, horizon=3200))
+        for ka in [3, 4]:      # (4: the very frame the waiting consumer had been asking for during the other one's pause)
+            for req in ['snk,other', 'other']:      # (an evicted consumer that is a required output stops the producer anyway)
+                fs = [src(N, required=req, period=20), sink('snk', ['src'], stall(ka, 900)), sink('other', ['src;main>x'], stall(2, 800))]
+                fs[1].setdefault('config', {})['sources_low_latency'] = ll
+                out.append(timely(scn(f'two-pauses/lowlat{int(ll)}/k{ka}/req-{req}', fs, conn_timeout=1000), quiet=2300, horizon=2350))
 
     # replicated consumers: two live synchronized consumers with the SAME filter id on one publisher, one stalls
     for k in [2]:
@@ -457,7 +458,7 @@ def c04_family(tier):
 
     for s in out:
         s['stall'] = True
-        s['dev_window'] = (0, 2200 if 'slowstart' in s['name'] or 'two-pauses' in s['name'] else 1100)     # deviations are enumerated at every choice point of the first 1100 ms (start-up, stall start, settling)
+        s['dev_window'] = (0, 2200 if 'slowstart' in s['name'] else 1300 if 'two-pauses' in s['name'] else 1100)     # deviations are enumerated at every choice point of the first 1100 ms (start-up, stall start, settling)
 
     return out
 
